@@ -323,6 +323,7 @@ func (vlog *valueLog) rewrite(f *logFile) error {
 		return err
 	}
 
+	y.VerifPoint("gc.scanned")
 	// vlogGCPauseHook fires here in tests to inject a delete + compaction
 	// into the race window between Phase 1 (scan) and Phase 2 (write-back).
 	if vlog.db.vlogGCPauseHook != nil {
@@ -351,6 +352,7 @@ func (vlog *valueLog) rewrite(f *logFile) error {
 		}
 		i += batchSize
 	}
+	y.VerifPoint("gc.writeback")
 	vlog.opt.Infof("Processed %d entries in %d loops", len(wb), loops)
 	vlog.opt.Infof("Total entries: %d. Moved: %d", count, moved)
 	vlog.opt.Infof("Removing fid: %d", f.fid)
@@ -372,6 +374,7 @@ func (vlog *valueLog) rewrite(f *logFile) error {
 		vlog.filesLock.Unlock()
 	}
 
+	y.VerifPoint("gc.delete.pre")
 	if deleteFileNow {
 		if err := vlog.deleteLogFile(f); err != nil {
 			return err
@@ -448,6 +451,7 @@ func (vlog *valueLog) dropAll() (int, error) {
 		return count, err
 	}
 
+	y.VerifPoint("vlog.dropall.deleted")
 	vlog.db.opt.Infof("Value logs deleted. Creating value log file: 1")
 	if _, err := vlog.createVlogFile(); err != nil { // Called while writes are stopped.
 		return count, err
@@ -637,10 +641,12 @@ func (vlog *valueLog) open(db *DB) error {
 	if err != nil {
 		return y.Wrapf(err, "while iterating over: %s", last.path)
 	}
+	y.VerifPoint("vlog.open.truncate.pre")
 	if err := last.Truncate(int64(lastOff)); err != nil {
 		return y.Wrapf(err, "while truncating last value log file: %s", last.path)
 	}
 
+	y.VerifPoint("vlog.open.create.pre")
 	// Don't write to the old log file. Always create a new one.
 	if _, err := vlog.createVlogFile(); err != nil {
 		return y.Wrapf(err, "Error while creating log file in valueLog.open")
@@ -831,6 +837,7 @@ func (vlog *valueLog) write(reqs []*request) error {
 
 	defer func() {
 		if vlog.opt.SyncWrites {
+			y.VerifFile("sync", curlf.path)
 			if err := curlf.Sync(); err != nil {
 				vlog.opt.Errorf("Error while curlf sync: %v\n", err)
 			}
@@ -862,15 +869,18 @@ func (vlog *valueLog) write(reqs []*request) error {
 	toDisk := func() error {
 		if vlog.woffset() > uint32(vlog.opt.ValueLogFileSize) ||
 			vlog.numEntriesWritten > vlog.opt.ValueLogMaxEntries {
+			y.VerifPoint("vlog.rotate.pre")
 			if err := curlf.doneWriting(vlog.woffset()); err != nil {
 				return err
 			}
 
+			y.VerifPoint("vlog.rotate.donewriting")
 			newlf, err := vlog.createVlogFile()
 			if err != nil {
 				return err
 			}
 			curlf = newlf
+			y.VerifPoint("vlog.rotate.post")
 		}
 		return nil
 	}
@@ -914,6 +924,7 @@ func (vlog *valueLog) write(reqs []*request) error {
 			if err := write(buf); err != nil {
 				return err
 			}
+			y.VerifPoint("vlog.store")
 			written++
 			bytesWritten += buf.Len()
 			// No need to flush anything, we write to file directly via mmap.
